@@ -7,7 +7,15 @@ patch=$(realpath "$1"); pid=$2; tier=${3:-quick}
 top=$(mktemp -d /tmp/mr_XXXXXX)
 trap 'cd /; git -C /repo worktree remove --force "$top/repo" >/dev/null 2>&1; rm -rf "$top"' EXIT
 git -C /repo worktree add -q --detach "$top/repo" HEAD || exit 9
-if ! git -C "$top/repo" apply "$patch"; then echo "PATCH DOES NOT APPLY"; exit 9; fi
+# By default the amalgamated qtlogger.h is not taken from the patch but regenerated from the patched
+# sources (so patches written against an older HEAD keep applying); RAW=1 applies the patch verbatim
+# (needed for changes that deliberately leave the header stale).
+if [ "${RAW:-0}" = 1 ]; then
+  git -C "$top/repo" apply "$patch" || { echo "PATCH DOES NOT APPLY"; exit 9; }
+else
+  git -C "$top/repo" apply --exclude=qtlogger.h "$patch" || git -C "$top/repo" apply -3 --exclude=qtlogger.h "$patch" || { echo "PATCH DOES NOT APPLY"; exit 9; }
+  if grep -q '^+++ b/qtlogger.h' "$patch"; then (cd "$top/repo" && python3 tools/gen_qtlogger.h.py >/dev/null 2>&1); fi
+fi
 rsync -a --exclude .git --exclude 'build/lib' --exclude 'build/libsan' --exclude 'build/h_*' --exclude 'build/*.a' \
       --exclude 'build/.lock*' --exclude 'evidence/replays' /verif/ "$top/verif/"
 cd "$top/verif" && VERIF_REPO="$top/repo" VERIF_TIER=$tier python3 check.py "$pid" --tier "$tier"
